@@ -194,6 +194,14 @@ def main(tier):
         for n, p in enumerate(progs):
             for m, h in enumerate(hists):
                 jobs.append({'id': '%s/%d/h%d' % (name, n, m), 'prog': p, 'hist': h, 'seed': n * 1000 + m})
+    # deep alternating sequential / parallel nestings (TLC simulation of the builder machine, no native gate set): the
+    # operations that need none, the same pass twice on one object (a statement list shared between input and output
+    # only shows when the pass runs again)
+    deep = passes.enumerate_programs(rep, 'nestings-deep', passes.ast_cfg('H_T', 'M_E0', 'T_T', 'O_TD', 8, 4), wd,
+                                     sim=(400, 40) if tier == 'quick' else (4000, 50), budget=250 if tier == 'quick' else 3000)
+    for n, p in enumerate(deep):
+        for m, h in enumerate([('T', 'T'), ('T', 'G', 'T'), ('T', 'U')]):
+            jobs.append({'id': 'nestings-deep/%d/h%d' % (n, m), 'prog': p, 'hist': h, 'seed': n * 10 + m})
     rep.phase('tlc_enumeration')
     recs = [r for r in core.pool_map(run_history, jobs, chunksize=50) if r]
     rep.phase('replay')
